@@ -82,7 +82,7 @@ def main(rep, tier, only):
         "min": r"^make_result\(distribution_\.min\(\)\)$",
         "max": r"^make_result\(distribution_\.max\(\)\)$",
         "distribution": r"^distribution_$",
-        "make_result": r"^decorated_value\(_value\)$",
+        "make_result": r"^decorated_value\(r_a0\)$",
     }
     seen = set()
     for fn in L.method_fns(db, B):
@@ -97,13 +97,13 @@ def main(rep, tier, only):
         if short in want:
             pat = want[short]
         elif short == "operator()" and np_ == 1:
-            pat = r"^make_result\(distribution_\.operator\(\)\(_rng\)\)$"
+            pat = r"^make_result\(distribution_\.operator\(\)\(r_a0\)\)$"
         elif short == "operator()" and np_ == 2:
-            pat = r"^make_result\(distribution_\.operator\(\)\(_rng, _parameters\.convert_from\(\)\)\)$"
+            pat = r"^make_result\(distribution_\.operator\(\)\(r_a0, r_a1\.convert_from\(\)\)\)$"
         elif short == "param" and np_ == 0:
             pat = r"^convert_to\(distribution_\)$"
         elif short == "param" and np_ == 1:
-            pat = r"^distribution_\.param\(_parameters\.convert_from\(\)\)$"
+            pat = r"^distribution_\.param\(r_a0\.convert_from\(\)\)$"
         if pat is None:
             continue
         seen.add(key)
@@ -147,8 +147,8 @@ def main(rep, tier, only):
         for fn in dedupe(db.fns(C + "::convert_to")):
             u = fn["_unit"]
             t = ret_term(u, fn) or ""
-            i1 = t.find("_dist.%s()" % getters[0])
-            i2 = t.find("_dist.%s()" % getters[1])
+            i1 = t.find("r_a0.%s()" % getters[0])
+            i2 = t.find("r_a0.%s()" % getters[1])
             ok = 0 <= i1 < i2 and t.count("decorated_value(") == 2
             (rep.ok if ok else rep.fail)("PARAM", cls + "::convert_to", F.primary_site(fn), F.describe(fn)[:160],
                                          **({"how": "(%s(), %s()) in order, decorated" % getters} if ok else {"why": "convert_to is `%s`" % t}))
@@ -207,8 +207,8 @@ def main(rep, tier, only):
     for fn in dedupe(db.fns(R + "wrapper::uniform_container::operator()")):
         u = fn["_unit"]
         t = ret_term(u, fn) or ""
-        ok = re.sub(r"\s", "", t) in ("(container_[]distribution_.operator()(_generator))", "(container_.get()[]distribution_.operator()(_generator))",
-                                     "container_.operator[](distribution_.operator()(_generator))", "container_.get().operator[](distribution_.operator()(_generator))")
+        ok = re.sub(r"\s", "", t) in ("(container_[]distribution_.operator()(r_a0))", "(container_.get()[]distribution_.operator()(r_a0))",
+                                     "container_.operator[](distribution_.operator()(r_a0))", "container_.get().operator[](distribution_.operator()(r_a0))")
         (rep.ok if ok else rep.fail)("FACT", "uniform_container::operator()", F.primary_site(fn), F.describe(fn)[:160], **({"how": t} if ok else {"why": "body is `%s`, expected container[distribution_(generator)]" % t}))
         break
     for fn in dedupe(db.fns(R + "wrapper::make_uniform_container_advanced")):
